@@ -177,8 +177,26 @@ func analyse(j *Job, r *Res) *facts {
 				if v == 0 && inWindow[i] {
 					f.lostBcast = true
 				}
-			default:
-				f.problems = append(f.problems, Violationish{"producer-blocking-op", "non-blocking", fmt.Sprintf("step %d: producer %d performs a %d operation (only add/load/cas/broadcast are non-blocking)", i, p, k)})
+			case KStore:
+				// an unconditional store in place of the CAS: the position takes effect here
+				if cur[p] != nil {
+					cur[p].Outcome = "installed"
+					cur[p].CasStep = i
+					f.casStep[cur[p].Msg] = i
+					f.seqOf[cur[p].Msg] = cur[p].Wi
+					f.msgAt[cur[p].Wi] = cur[p].Msg
+					if cur[p].Old > 0 && uint64(cur[p].Old-1) > cur[p].Wi {
+						f.overwrites = append(f.overwrites, overwrite{Wi: cur[p].Wi, OldSeq: uint64(cur[p].Old - 1), FirstLap: cur[p].Wi < n})
+					}
+					done[p]++
+					if j.Level == "writer" && j.Waiter {
+						pendingB[p] = true
+					} else {
+						retCount++
+					}
+				}
+			case KLock, KWait, KWake, KAwait, KSleep:
+				f.problems = append(f.problems, Violationish{"producer-blocking-op", "non-blocking", fmt.Sprintf("step %d: producer %d performs a blocking operation (kind %d) inside Write", i, p, k)})
 			}
 		} else if t == RoleCloser && k == KClose {
 			f.closeStep = i
@@ -320,7 +338,11 @@ func (m *monCtx) c10(j *Job, r *Res, f *facts) {
 		}
 	}
 	if r.Err != "" {
-		m.violate(j, r, "runtime-failure", "execution", r.Err, nil, nil)
+		if len(r.Err) > 13 && r.Err[:13] == "schedule step" {
+			m.violate(j, r, "schedule-not-replayable", "execution", "a corpus/witness schedule cannot be replayed on this code: "+r.Err, nil, nil)
+		} else {
+			m.violate(j, r, "runtime-failure", "execution", r.Err, nil, nil)
+		}
 	}
 }
 
